@@ -7,8 +7,8 @@
     Strings and payloads are arbitrary byte sequences, so every statement below covers all
     payload bytes and (a superset of) all valid-UTF-8 strings.  Library behaviour enters only as
     an explicit, pointwise hypothesis of the round-trip theorems. *)
-From WM Require Import Base.Prelude Message.Model Value.Model Value.Codec
-  Value.EqualsProofs Value.CodecProofs Value.StoreProofs.
+From WM Require Import Base.Prelude Message.Model Value.Model Value.Codec Value.Json Value.ToyCodec
+  Value.EqualsProofs Value.CodecProofs Value.StoreProofs Value.JsonProofs Value.ToyProofs Value.CrossProofs.
 
 (** * Equals *)
 
@@ -217,6 +217,118 @@ Theorem C16_reply_model_accepted : forall R renc rdec nu reqb (p : rparams R),
     (match marshal_reply R renc nu p with Ok m => unmarshal_reply R rdec m | Err e => Err e end) = true.
 Proof. exact reply_model_accepted. Qed.
 
+(** * Round "proofs": encoding/json written out (Value/Json.v) — the library laws become theorems *)
+
+(** reading back the string literal the encoder writes: every valid-UTF-8 byte string *)
+Theorem C16_json_string_roundtrip : forall s, utf8_valid s = true ->
+  unescape (escape s) = Some s /\ dec_str (enc_str s) = Some s.
+Proof. exact (fun s H => conj (unescape_escape s H) (dec_str_enc_str s H)). Qed.
+
+(** standard base64 with padding: every byte string *)
+Theorem C16_base64_roundtrip : forall bs, bytes_ok bs -> b64dec (b64enc bs) = Some bs.
+Proof. exact b64dec_b64enc. Qed.
+
+(** the codec law of the envelope, no longer assumed: the decoder reads back the text the encoder
+    wrote, given only that the scanner splits the two objects involved into their members *)
+Theorem C16_envelope_json_law : forall unframe e, envelope_ok e ->
+  unframe (frame_obj (env_members e)) = Some (env_members e) ->
+  (forall l, e_meta e = Some l -> unframe (frame_obj (meta_members l)) = Some (meta_members l)) ->
+  forall b, jenc_env e = Some b -> jdec_env unframe b = Some e.
+Proof. exact jdec_jenc_env. Qed.
+
+(** unwrap after wrap with the JSON library written out *)
+Theorem C16_envelope_roundtrip_json : forall unframe nu dest m w,
+  envelope_ok (env_of dest m) -> framing_ok unframe (env_of dest m) ->
+  wrap jenc_env nu dest m = Ok w -> unwrap (jdec_env unframe) w = Ok (dest, m).
+Proof. exact envelope_roundtrip_json. Qed.
+
+Theorem C16_envelope_wrap_json_total : forall nu dest m, dest <> [] ->
+  wrap jenc_env nu dest m = Ok (Msg nu (Some (frame_obj (env_members (env_of dest m)))) (Some [])).
+Proof. exact wrap_json_total. Qed.
+
+Theorem C16_publisher_roundtrip_json : forall unframe nu cfg inner_ok dest ms ft ws,
+  (forall m, In m ms -> envelope_ok (env_of dest m) /\ framing_ok unframe (env_of dest m)) ->
+  fwd_publish jenc_env nu cfg inner_ok dest ms = Ok (ft, ws) ->
+  ft = (if str_eqb cfg [] then default_forwarder_topic else cfg)
+  /\ map (unwrap (jdec_env unframe)) ws = map (fun m => Ok (dest, m)) ms.
+Proof. exact publisher_roundtrip_json. Qed.
+
+(** reply marshaler with a string result: closed (no library hypothesis at all) *)
+Theorem C16_reply_roundtrip_string : forall nu (p : rparams str) m,
+  utf8_valid (p_result str p) = true ->
+  marshal_reply str (fun r => Some (Some (enc_str r))) nu p = Ok m ->
+  unmarshal_reply str dec_str m = Ok (Rep str (p_result str p) (p_err str p)).
+Proof. exact reply_roundtrip_string. Qed.
+
+(** outside valid UTF-8 the property cannot hold (the C17 finding as a corollary): the encoder
+    maps every ill-formed byte to U+FFFD, so it is not injective, ... *)
+Theorem C16_json_escape_not_injective_refuted : exists s1 s2, s1 <> s2 /\ enc_str s1 = enc_str s2.
+Proof. exact escape_not_injective. Qed.
+Theorem C16_json_invalid_utf8_roundtrip_refuted :
+  exists s, utf8_valid s = false /\ dec_str (enc_str s) = Some fffd_raw /\ s <> fffd_raw.
+Proof. exact invalid_utf8_not_read_back. Qed.
+(** ... and two different messages get the same envelope, so no decoder gives both back *)
+Theorem C16_envelope_roundtrip_invalid_utf8_refuted :
+  exists dest m1 m2 w, m1 <> m2
+    /\ wrap jenc_env [85]%N dest m1 = Ok w /\ wrap jenc_env [85]%N dest m2 = Ok w
+    /\ forall jdec, ~ (unwrap jdec w = Ok (dest, m1) /\ unwrap jdec w = Ok (dest, m2)).
+Proof. exact envelope_invalid_utf8_collapses. Qed.
+
+(** the GLOBAL codec law (for all envelopes) is satisfiable: a toy length-prefixed serialisation
+    satisfies it, and with it wrap/unwrap is the identity for every message and destination *)
+Theorem C16_codec_law_satisfiable :
+  exists (jenc : envelope -> option (list N)) (jdec : list N -> option envelope),
+    (forall e, jenc e <> None) /\ (forall e b, jenc e = Some b -> jdec b = Some e).
+Proof. exact codec_law_satisfiable. Qed.
+Theorem C16_toy_envelope_roundtrip : forall nu dest m, dest <> [] ->
+  exists w, wrap toy_enc nu dest m = Ok w /\ unwrap toy_dec w = Ok (dest, m).
+Proof. exact toy_envelope_roundtrip. Qed.
+
+(** * Round "proofs": different marshalers on the two sides, and the message context *)
+
+(** forward compatibility: ProtoMarshaler writes, the gogo marshaler (fallback enabled) reads *)
+Theorem C16_cqrs_proto_then_gogo : forall V type_string gen_name cfg_uuid default_uuid is_msg venc vdec is_gogo gdec (v : V) m,
+  (forall b, venc v = Some b -> vdec (pl_bytes b) = Some v) ->
+  (forall b v', venc v = Some b -> gdec (pl_bytes b) = LOk v' -> v' = v) ->
+  proto_marshal V type_string gen_name cfg_uuid default_uuid is_msg venc v = Ok m ->
+  gogo_unmarshal V is_msg vdec is_gogo gdec false true m = Ok v.
+Proof. exact proto_then_gogo. Qed.
+
+(** backward compatibility: the gogo marshaler writes (either fallback setting), ProtoMarshaler reads *)
+Theorem C16_cqrs_gogo_then_proto : forall V type_string gen_name cfg_uuid default_uuid is_msg venc vdec is_gogo genc nofb (v : V) m,
+  is_msg = true ->
+  (forall b, venc v = Some b -> vdec (pl_bytes b) = Some v) ->
+  (forall b, genc v = LOk b -> vdec (pl_bytes b) = Some v) ->
+  gogo_marshal V type_string gen_name cfg_uuid default_uuid is_msg venc is_gogo genc nofb v = Ok m ->
+  proto_unmarshal V is_msg vdec m = Ok v.
+Proof. exact gogo_then_proto. Qed.
+
+(** gogo on both sides with different DisableStdProtoFallback: fine when gogo wrote the bytes, ... *)
+Theorem C16_cqrs_gogo_cross_config_partial : forall V type_string gen_name cfg_uuid default_uuid is_msg venc vdec is_gogo genc gdec
+    nofb_w nofb_r fixed (v : V) b,
+  is_gogo = true -> genc v = LOk b ->
+  (forall b, genc v = LOk b -> gdec (pl_bytes b) = LOk v) ->
+  exists m, gogo_marshal V type_string gen_name cfg_uuid default_uuid is_msg venc is_gogo genc nofb_w v = Ok m
+         /\ gogo_unmarshal V is_msg vdec is_gogo gdec nofb_r fixed m = Ok v.
+Proof. exact gogo_cross_config_gogo_bytes. Qed.
+
+(** ... refuted when the writer's fallback produced them and the reader has none *)
+Theorem C16_cqrs_gogo_cross_config_refuted :
+  exists (venc : unit -> option (option (list N))) (vdec : list N -> option unit)
+         (genc : unit -> lib (option (list N))) (gdec : list N -> lib unit) m,
+    (forall b, venc tt = Some b -> vdec (pl_bytes b) = Some tt)
+    /\ gogo_marshal unit (fun _ => []) None None [] true venc true genc false tt = Ok m
+    /\ gogo_unmarshal unit true vdec true gdec true true m = Err ELibPanic.
+Proof. exact gogo_cross_config_refuted. Qed.
+
+(** the envelope message carries the wrapped message's context, the unwrapped message the context
+    of the envelope message it is unwrapped from *)
+Theorem C16_envelope_context : forall jenc jdec nu dest m c c' w,
+  (forall b, jenc (env_of dest m) = Some b -> jdec b = Some (env_of dest m)) ->
+  wrap_c jenc nu dest (m, c) = Ok w ->
+  snd w = c /\ unwrap_c jdec (fst w, c') = Ok (dest, (m, c')).
+Proof. exact envelope_context. Qed.
+
 Print Assumptions C16_equals_iff.
 Print Assumptions C16_equals_iff_refuted.
 Print Assumptions C16_equals_symmetric_refuted.
@@ -243,6 +355,25 @@ Print Assumptions C16_name_ignores_pointer.
 Print Assumptions C16_cqrs_acceptor.
 Print Assumptions C16_reply_roundtrip.
 Print Assumptions C16_reply_model_accepted.
+
+Print Assumptions C16_json_string_roundtrip.
+Print Assumptions C16_base64_roundtrip.
+Print Assumptions C16_envelope_json_law.
+Print Assumptions C16_envelope_roundtrip_json.
+Print Assumptions C16_envelope_wrap_json_total.
+Print Assumptions C16_publisher_roundtrip_json.
+Print Assumptions C16_reply_roundtrip_string.
+Print Assumptions C16_json_escape_not_injective_refuted.
+Print Assumptions C16_json_invalid_utf8_roundtrip_refuted.
+Print Assumptions C16_envelope_roundtrip_invalid_utf8_refuted.
+Print Assumptions C16_codec_law_satisfiable.
+Print Assumptions C16_toy_envelope_roundtrip.
+
+Print Assumptions C16_cqrs_proto_then_gogo.
+Print Assumptions C16_cqrs_gogo_then_proto.
+Print Assumptions C16_cqrs_gogo_cross_config_partial.
+Print Assumptions C16_cqrs_gogo_cross_config_refuted.
+Print Assumptions C16_envelope_context.
 
 (** * Non-vacuity *)
 
@@ -293,3 +424,20 @@ Proof. vm_compute. auto. Qed.
 Example C16_witness_utf8 :
   utf8_valid [244; 143; 191; 191]%N = true /\ utf8_valid [237; 160; 128]%N = false /\ utf8_valid [192; 128]%N = false.
 Proof. vm_compute. auto. Qed.
+
+(** the framing hypothesis is satisfiable and the JSON-instantiated round trip computes: a message
+    with a quote, a newline, U+2028, a 4-byte code point, all byte values 0..5 in the payload *)
+Example C16_witness_json :
+  let m := Msg [34; 10; 226; 128; 168]%N (Some [0; 1; 2; 3; 4; 5]%N) (Some [([240; 159; 152; 128]%N, [60]%N)]) in
+  let dest := [116; 92]%N in
+  let e := env_of dest m in
+  let unframe := fun b : list N =>
+    if list_eqb N.eqb b (frame_obj (env_members e)) then Some (env_members e)
+    else if list_eqb N.eqb b (frame_obj (meta_members [([240; 159; 152; 128]%N, [60]%N)]))
+         then Some (meta_members [([240; 159; 152; 128]%N, [60]%N)]) else None in
+  wrap jenc_env [85]%N dest m = Ok (Msg [85]%N (Some (frame_obj (env_members e))) (Some []))
+  /\ unwrap (jdec_env unframe) (Msg [85]%N (Some (frame_obj (env_members e))) (Some [])) = Ok (dest, m)
+  /\ enc_str [34; 10; 226; 128; 168; 255]%N
+     = [34; 92; 34; 92; 110; 92; 117; 50; 48; 50; 56; 92; 117; 102; 102; 102; 100; 34]%N
+  /\ b64enc [0; 1; 2; 3; 4; 5]%N = [65; 65; 69; 67; 65; 119; 81; 70]%N.
+Proof. vm_compute. repeat split. Qed.
